@@ -18,6 +18,7 @@ import (
 	"reflect"
 	"sort"
 	"strings"
+	"sync"
 	"time"
 
 	"github.com/mattn/anko/ast"
@@ -360,6 +361,9 @@ func run(c *common.Ctx) *common.Result {
 	// else so that this process's first import of the package is the one observed
 	isolation(res)
 	variants(res)
+	if !c.Worker || c.Shard == 0 {
+		deepConcurrent(res)
+	}
 	progs := corpus(c)
 	bound := 2
 	if c.Thorough() {
@@ -567,6 +571,71 @@ func isolation(res *common.Result) {
 		if irrun.RenderGo(vb) != irrun.RenderGo(want) {
 			res.Violate(common.Violation{Class: "environments-share-bindings/import-result", Case: fm.name + " | A: " + srcA + " || B: " + srcB,
 				Detail: "before A ran a fresh environment read " + irrun.RenderGo(want) + ", after A ran another fresh environment reads " + irrun.RenderGo(vb)})
+		}
+	}
+}
+
+// deepConcurrent: "every run yields the result it would yield alone" also when
+// several runs are deep inside script calls AT THE SAME MOMENT: one shared tree
+// that recurses D levels and then parks in a host function until all K runs have
+// arrived there (a barrier: the maximal overlap, reached deterministically on
+// real goroutines), for D up to 4000 and K = 3.  A resource the interpreter
+// accounts for process-wide instead of per run (a call-depth guard, a frame pool
+// with a limit) makes a run fail that succeeds alone.
+func deepConcurrent(res *common.Result) {
+	for _, depth := range []int{50, 1000, 4000} {
+		src := fmt.Sprintf("func r(n) { if n == 0 { park(); return 0 }; return 1 + r(n - 1) }\nr(%d)", depth)
+		stmt, err := parser.ParseSrc(src)
+		if err != nil {
+			res.Note("deep-recursion program does not parse: " + err.Error())
+			return
+		}
+		run := func(park func()) string {
+			e := env.NewEnv()
+			e.Define("park", park)
+			v, err := vm.Run(e, &vm.Options{Debug: false}, stmt)
+			if err != nil {
+				return "error: " + err.Error()
+			}
+			return irrun.RenderGo(v)
+		}
+		want := run(func() {})
+		const k = 3
+		var arrived sync.WaitGroup
+		arrived.Add(k)
+		released := make(chan struct{})
+		go func() { arrived.Wait(); close(released) }()
+		outs := make([]string, k)
+		var done sync.WaitGroup
+		for t := 0; t < k; t++ {
+			t := t
+			done.Add(1)
+			go func() {
+				defer done.Done()
+				parked := false
+				outs[t] = run(func() {
+					if !parked {
+						parked = true
+						arrived.Done()
+					}
+					select {
+					case <-released:
+					case <-time.After(60 * time.Second):
+					}
+				})
+				if !parked {
+					arrived.Done() // the run ended without reaching the bottom: do not hold the others
+				}
+			}()
+		}
+		done.Wait()
+		res.Add("deep_concurrent_runs", k)
+		for t := 0; t < k; t++ {
+			if outs[t] != want {
+				res.Violate(common.Violation{Class: "concurrent-run-differs-from-solo/deep-recursion", Case: fmt.Sprintf("%d runs of one tree, each %d script calls deep at the same moment | %s", k, depth, src),
+					Detail: fmt.Sprintf("run %d yields %s, alone the program yields %s", t, outs[t], want)})
+				break
+			}
 		}
 	}
 }
